@@ -397,6 +397,15 @@ func (eng *Engine) callMode(fn *ssa.Function) (string, *FuncContract) {
 	if fn.Parent() != nil && len(fn.Blocks) > 0 {
 		return "inline", nil
 	}
+	// a loop-free helper of this module without a contract (for example one
+	// extracted by a refactoring) is executed in place as well, rather than
+	// treated as arbitrary code
+	if len(fn.Blocks) > 0 && fn.Pkg != nil && strings.HasPrefix(fn.Pkg.Pkg.Path(), modulePath) && fn.Synthetic == "" && len(eng.loopInfo(fn).headers) == 0 {
+		return "inline", nil
+	}
+	if o := fn.Origin(); o != nil && len(fn.Blocks) > 0 && o.Pkg != nil && strings.HasPrefix(o.Pkg.Pkg.Path(), modulePath) && len(eng.loopInfo(fn).headers) == 0 {
+		return "inline", nil
+	}
 	return "unknown", nil
 }
 
